@@ -8,7 +8,7 @@
    permitted by that incarnation: its policy allows it now, or it answered "allow" to the same question
    within the allow-TTL (a cached decision of THIS incarnation).  Otherwise the request is answered 403 by
    the gateway and nothing is forwarded.  An answer of another incarnation - a deleted cluster of the
-   same name, or the previous owner of the server name - never permits anything. *)
+   same name, or the previous owner of a server name that moved to another live cluster - never permits anything. *)
 From KG Require Import Prelude C02_Model C02_HistModel.
 Open Scope Z_scope.
 Open Scope string_scope.
